@@ -5,7 +5,7 @@ CFG = dict(
               "obj_roundtrip_carry", "obj_roundtrip", "readObj_transport", "obj_roundtrip_text", "obj_shared_offset_breaks"],
     streams=[dict(name="c05", n=dict(quick=300, thorough=10000))],
     trusted=T_COMMON + [
-        "text layer: the driver's lexer (bufio.ScanLines, strings.Fields, strconv.Atoi/ParseFloat(.,32), parseObjFaceComponent) and printer (strconv 'f' -1 for values with <= 15 significant digits) are hand transcriptions in lean/Driver/C05.lean, tied text-exactly by the c05.write / c05.read correspondence on every run; they are not the subject of the theorems",
+        "text layer: the driver's lexer (bufio.ScanLines, strings.Fields, strconv.Atoi/ParseFloat(.,32), parseObjFaceComponent) and printer (strconv 'f' -1 = shortest round-tripping decimal, computed with exact rational arithmetic) are hand transcriptions in lean/Driver/C05.lean, tied text-exactly by the c05.write / c05.read correspondence on every run; they are not the subject of the theorems",
         "Group.ftoks is a ghost field of the reader model (face lines per group); no other field depends on it",
     ],
     residue=[
@@ -16,5 +16,5 @@ CFG = dict(
         "material names with blanks are written without them; nil material is written and read back as DefaultDiffuse (names compared as written: matName)",
         "polygons with more than three corners (first three taken), negative/relative indices (panic), .mtl file contents, fs.go helpers, io.Writer errors, attribute names stored under another arity",
     ],
-    assumptions=["generated scalar values are dyadic with <= 15 significant decimal digits (printing exactly computable) and exactly float32-representable on the writer side; arbitrary decimal syntax on the reader side"],
+    assumptions=["scalars are finite float64 values (NaN / Inf are not generated: the writer prints them as NaN / +Inf, which ParseFloat accepts; not exercised)"],
 )
